@@ -242,13 +242,13 @@ def run_more(repo: Repo, rep: Report) -> None:
              "identity / key membership, never by the truthiness of the bound term (a variable bound to 0, empty string or false is bound)", floor=6)
     for cls in ("FrozenDict", "FrozenBindings", "Bindings", "QueryContext"):
         for m, f in sp.methods(cls).items():
-            truthy.scan(repo, rep, "C04.d-unbound-by-identity", sp, f, "%s.%s" % (cls, m), exempt=EXEMPT_D)
+            truthy.scan(repo, rep, "C04.d-unbound-by-identity", sp, f, "%s.%s" % (cls, m), exempt=EXEMPT_D, binding_maps=BMAPS)
             rep.analysed("rdflib/plugins/sparql/sparql.py:%s.%s" % (cls, m))
     for mod in (ev, eu):
         for q, f in mod.functions():
             if "." in q:
                 continue
-            truthy.scan(repo, rep, "C04.d-unbound-by-identity", mod, f, q, exempt=EXEMPT_D)
+            truthy.scan(repo, rep, "C04.d-unbound-by-identity", mod, f, q, exempt=EXEMPT_D, binding_maps=BMAPS)
 
     # (e) GRAPH ?g enumerates every named graph
     rep.rule("C04.e-graph-var-enumerates-all-named-graphs",
@@ -289,6 +289,7 @@ def run_more(repo: Repo, rep: Report) -> None:
                        "membership tested on the solution itself" if ok else "membership tested on %s, not on the solution %s" % (norm(n.left), var), node=n)
 
 
+BMAPS = ("rdflib.plugins.sparql.sparql.Bindings", "rdflib.plugins.sparql.sparql.FrozenDict", "rdflib.plugins.sparql.sparql.QueryContext")
 EXEMPT_D: dict = {
     ("Bindings.__getitem__", "self.outer"):
         "Bindings.__len__ counts the whole outer chain, so `not self.outer` is true only when no outer level holds any key: the lookup would raise KeyError either way",
